@@ -41,7 +41,7 @@ def main():
             na.append({"property_id": pid, "reason": extra.get("na", {}).get(pid, "check not built yet in this round (machinery planned in DESIGN.md section 5); not claimed until a registered check exists")})
     man = {
         "version": 1,
-        "setup_cmd": "/venv/bin/python -c 'import hypothesis, lark' || /venv/bin/pip install --no-index --find-links /opt/veriftools/wheels hypothesis",
+        "setup_cmd": "(/venv/bin/python -c 'import hypothesis, lark' || /venv/bin/pip install --no-index --find-links /opt/veriftools/wheels hypothesis) && (PYTHONPATH=/verif/.deps /venv/bin/python -c 'import atheris' 2>/dev/null || /venv/bin/pip install -q --no-index --find-links /opt/veriftools/wheels --target /verif/.deps atheris)",
         "hooks": {
             "guard": "NMFU_VERIF",
             "enable": "no source hooks exist; checks import nmfu from /repo's working tree (PYTHONPATH) with NMFU_VERIF=1 set",
